@@ -1,6 +1,6 @@
 (* C10 - the full statements, Stop included: the node counts the connections it created and waits for one
    completion from each before it closes pConnDone.  Counting invariant over all associations. *)
-From Coq Require Import NArith String List Bool Arith Lia.
+From Coq Require Import NArith String List Bool Arith Lia Permutation.
 From UPF Require Import Base.LTS Model.Teardown Proofs.TeardownInv Proofs.TeardownProofs.
 Import ListNotations.
 Open Scope list_scope.
@@ -44,17 +44,17 @@ Qed.
 (* ================================================================== local facts *)
 Lemma rep_crt sess a : AInv sess a -> rep a = true -> crt a = true.
 Proof.
-  intros (_ & _ & _ & _ & _ & _ & _ & (H1 & _)) Hr. apply H1. unfold rep in Hr. destruct (a_once a); congruence.
+  intros (_ & _ & _ & _ & _ & _ & _ & (H1 & _) & _ & _) Hr. apply H1. unfold rep in Hr. destruct (a_once a); congruence.
 Qed.
 
 (* the thread about to send has not reported yet *)
-Lemma at_send_rep sess a r : AInv sess a -> is_assoc_role r = true -> at_pc a r FDo 5 = true ->
+Lemma at_send_rep sess a r : AInv sess a -> is_assoc_role r = true -> at_pc a r FDo 6 = true ->
   rep a = false /\ crt a = true.
 Proof.
   intros Ha Hr Hat. unfold at_pc in Hat. apply andb_true_iff in Hat. destruct Hat as [Hf Hp].
   apply Nat.eqb_eq in Hp.
   assert (Hfn : t_fn (get_thr a r) = FDo) by (destruct (t_fn (get_thr a r)); try discriminate; reflexivity).
-  pose proof Ha as (Hrd & Hsel & Hhb & Hfst & _ & _ & _ & (H1 & _)).
+  pose proof Ha as (Hrd & Hsel & Hhb & Hfst & _ & _ & _ & (H1 & _) & _ & _).
   assert (Ho : a_once a = ORun r).
   { destruct r; try discriminate Hr; unfold fn_ok in *;
       [destruct Hrd as [[_ ?]|[? _]] | destruct Hsel as [[_ ?]|[? _]] | destruct Hhb as [[_ ?]|[? _]]
@@ -62,18 +62,19 @@ Proof.
   split; [unfold rep; rewrite Ho, Hp; reflexivity | apply H1; rewrite Ho; discriminate].
 Qed.
 
-Lemma rep_done sess a : AInv sess a -> rep a = true -> a_del a = sess /\ a_store a = [].
+Lemma rep_done sess a : AInv sess a -> rep a = true -> Permutation (a_del a) (a_inst a) /\ a_store a = [].
 Proof.
   intros (_ & _ & _ & _ & Hd & _) Hr. unfold rep in Hr. unfold Data in Hd.
   destruct (a_once a) as [|r0|]; [discriminate| |tauto].
   destruct Hd as (_ & _ & _ & Hb). unfold Body in Hb.
-  destruct (t_pc (get_thr a r0)) as [|[|[|[|[|[|[|[|p]]]]]]]]; cbn in Hr; try discriminate; tauto.
+  destruct (t_pc (get_thr a r0)) as [|[|[|[|[|[|[|[|[|p]]]]]]]]]; cbn in Hr; try discriminate; tauto.
 Qed.
 
-Lemma not_crt_untouched sess a : AInv sess a -> crt a = false -> a_del a = [] /\ a_store a = sess.
+(* a peer that was never accepted: nothing was ever done for it *)
+Lemma not_crt_untouched sess a : AInv sess a -> crt a = false -> a_once a = ONew.
 Proof.
-  intros (_ & _ & _ & _ & Hd & _ & _ & (H1 & _)) Hc. unfold Data in Hd.
-  destruct (a_once a) as [|r0|]; [tauto| |]; (assert (crt a = true) by (apply H1; discriminate); congruence).
+  intros (_ & _ & _ & _ & _ & _ & _ & (H1 & _) & _ & _) Hc.
+  destruct (a_once a) as [|r0|]; [reflexivity| |]; (assert (crt a = true) by (apply H1; discriminate); congruence).
 Qed.
 
 (* MapStore happens before the first message is handled: nothing has been reported then *)
@@ -81,7 +82,7 @@ Lemma at_store_rep sess a r : AInv sess a -> is_assoc_role r = true ->
   at_pc a r FFirst 1 || at_pc a r FFirst 3 = true -> rep a = false /\ r = RFst.
 Proof.
   intros Ha Hr Hat.
-  pose proof Ha as (Hrd & Hsel & Hhb & Hfst & _ & _ & _ & (_ & _ & H3 & _)).
+  pose proof Ha as (Hrd & Hsel & Hhb & Hfst & _ & _ & _ & (_ & _ & H3 & _) & _ & _).
   assert (Hfn : t_fn (get_thr a r) = FFirst /\ (t_pc (get_thr a r) = 1 \/ t_pc (get_thr a r) = 3)).
   { unfold at_pc in Hat. apply orb_true_iff in Hat.
     destruct Hat as [H|H]; apply andb_true_iff in H; destruct H as [Hf Hp]; apply Nat.eqb_eq in Hp;
@@ -100,7 +101,7 @@ Lemma rep_set_fields a : (forall v, rep (set_inbox a v) = rep a /\ crt (set_inbo
   /\ (forall v, rep (set_tmo_armed a v) = rep a /\ crt (set_tmo_armed a v) = crt a)
   /\ (forall v, rep (set_hb_armed a v) = rep a /\ crt (set_hb_armed a v) = crt a).
 Proof.
-  destruct a as [st de on sh tm hb so ib ta ha hr rd se ht fs]. unfold rep, crt. cbn.
+  destruct a as [st de on sh tm hb so ib ta ha hr hm ins rd se ht fs]. unfold rep, crt. cbn.
   repeat split; destruct on as [|r0|]; try reflexivity; destruct r0; reflexivity.
 Qed.
 
@@ -208,7 +209,7 @@ Lemma ni_assoc me r a nd nd' a2 :
 Proof.
   intros (N1 & N2 & N3 & N4 & N5 & N6 & N7 & N8 & N9)
          (F1 & F2 & F3 & F4 & F5 & F6 & F7 & F10 & F11 & F12 & F13 & F8 & F9)
-         (D1 & D2 & D5 & D6 & D7 & D8 & D3 & D4).
+         (D1 & D2 & D5 & D6 & D7 & D8 & D3 & Di & D4).
   unfold NI. rewrite F2, F3, F4, F7, F8, F10, F11, F12, F13. repeat split; auto.
   - apply N6. assumption.
   - destruct (n_busy nd') eqn:Eb; [|reflexivity]. destruct (N6 H) as [Hl Hb]. destruct (D7 eq_refl); congruence.
@@ -388,7 +389,7 @@ Proof.
     pose proof (step_assoc se (N.of_nat i) r alt (s_node s) a _ Er Ha eq_refl) as Hstep.
     destruct (thread_step (N.of_nat i) r alt (s_node s) a (get_thr a r)) as [[[nd' a'] t']| |site];
       try discriminate; injection H as <-.
-    + destruct Hstep as [[Ha2 Hd] Hfr]. pose proof Hd as (D1 & D2 & D5 & D6 & D7 & D8 & D3 & D4).
+    + destruct Hstep as [[Ha2 Hd] Hfr]. pose proof Hd as (D1 & D2 & D5 & D6 & D7 & D8 & D3 & Di & D4).
       pose proof Hfr as (F1 & F2 & F3 & F4 & F5 & F6 & F7 & F10 & F11 & F12 & F13 & F8 & F9).
       set (a2 := set_thr a' r t') in *.
       pose proof (cnt_upd rep (s_asc s) i a a2 Ea) as Crep.
@@ -397,7 +398,7 @@ Proof.
       * exact Hg'.
       * eapply ni_assoc; eauto.
       * reflexivity.
-      * rewrite F12, D1, D3 in *. destruct (at_pc a r FDo 5) eqn:Eat.
+      * rewrite F12, D1, D3 in *. destruct (at_pc a r FDo 6) eqn:Eat.
         -- destruct (at_send_rep se a r Ha Er Eat) as [Hrf _]. rewrite Hrf in *. cbn in Crep.
            rewrite app_length. cbn. unfold b2n in Crep. lia.
         -- rewrite orb_false_r in Crep. lia.
@@ -416,7 +417,7 @@ Proof.
                  destruct (t_fn (a_fst a)); cbn in *; try discriminate.
                  destruct (t_pc (a_fst a)) as [|[|[|[|p]]]]; cbn in *; discriminate.
            ++ split.
-              ** intros Hr2. rewrite D3 in Hr2. destruct (at_pc a r FDo 5).
+              ** intros Hr2. rewrite D3 in Hr2. destruct (at_pc a r FDo 6).
                  --- left. apply in_or_app. right. left. reflexivity.
                  --- rewrite orb_false_r in Hr2. destruct (M1 Hr2); [left|right]; assumption.
               ** intros Hmem. apply D6. apply M2. exact Hmem.
@@ -425,7 +426,7 @@ Proof.
            assert (Hij : N.eqb (N.of_nat j) (N.of_nat i) = false) by (apply N.eqb_neq; lia).
            split.
            ++ intros Hr2. destruct (M1 Hr2) as [Hin|Hmem].
-              ** left. destruct (at_pc a r FDo 5); [apply in_or_app; left|]; exact Hin.
+              ** left. destruct (at_pc a r FDo 6); [apply in_or_app; left|]; exact Hin.
               ** right. destruct (at_pc a r FFirst 1 || at_pc a r FFirst 3); [|exact Hmem].
                  cbn. rewrite Hij. cbn. apply memN_remove_all_false. exact Hmem.
            ++ intros Hmem. apply M2. destruct (at_pc a r FFirst 1 || at_pc a r FFirst 3); [|exact Hmem].
@@ -449,21 +450,21 @@ Qed.
 Theorem safe_all cfg ev sch : s_panic (run (init cfg ev) sch) = None.
 Proof. destruct (sinv_run cfg ev sch) as [_ _ H _ _ _]. exact H. Qed.
 
-(* when node.done is closed (Done() may return, main may exit) every connection the node ever created has
-   removed each of its sessions from the datapath exactly once and is gone from pConns; peers that were never
-   accepted were never touched *)
-Theorem clean_at_exit cfg ev sch i c a :
+(* when node.done is closed (Done() may return, main may exit) every connection the node ever created has an empty
+   store, has deleted from the datapath exactly the sessions that were ever installed for it - the configured ones
+   and those established by requests in flight - and is gone from pConns; peers that were never accepted were
+   never touched *)
+Theorem clean_at_exit cfg ev sch i a :
   cclosed (n_done (s_node (run (init cfg ev) sch))) = true ->
-  nth_error cfg i = Some c -> nth_error (s_asc (run (init cfg ev) sch)) i = Some a ->
+  nth_error (s_asc (run (init cfg ev) sch)) i = Some a ->
   in_map (run (init cfg ev) sch) i = false
-  /\ ((a_del a = c_sess c /\ a_store a = []) \/ (crt a = false /\ a_del a = [] /\ a_store a = c_sess c)).
+  /\ ((Permutation (a_del a) (a_inst a) /\ a_store a = []) \/ (crt a = false /\ a_once a = ONew)).
 Proof.
-  intros Hd Hc Ha. pose proof (sinv_run cfg ev sch) as Hs. set (s := run (init cfg ev) sch) in *.
+  intros Hd Ha. pose proof (sinv_run cfg ev sch) as Hs. set (s := run (init cfg ev) sch) in *.
   pose proof Hs as [Hg Hn _ _ _ Hm].
   destruct Hn as (_ & _ & _ & _ & N5 & _). specialize (N5 Hd).
   destruct (all_created_reported cfg s Hs ltac:(lia)) as [Hbuf Hall].
   destruct (Forall2_nth _ _ _ _ _ Hg Ha) as (se & Hse & Hai).
-  assert (se = c_sess c) as -> by (rewrite nth_error_map, Hc in Hse; cbn in Hse; congruence).
   destruct (Hm i a Ha) as [M1 M2]. unfold in_map, idx in *.
   destruct (crt a) eqn:Ec.
   - pose proof (Hall a (nth_error_In _ _ Ha) Ec) as Hr. split.
